@@ -17,7 +17,7 @@ CFGS = {
 }
 for n, f in ISA:
     CFGS['intrinsics-' + n] = ['-DGLM_FORCE_INTRINSICS', f, '-DC16_EXPECT_ALIGNED']
-QUICK = ['default', 'intrinsics-avx2', 'wxyz', 'xyzw_only']
+QUICK = ['default', 'intrinsics-avx2', 'wxyz', 'xyzw_only', 'size_t_length', 'swizzle+avx2']
 
 
 def SPEC(tier):
